@@ -431,7 +431,16 @@ def run_case(case):
         return out
     if sub == "peer":
         pm = Message()
-        fill_message(pm, spec)
+        wire_spec = spec
+        if case.get("omit"):
+            # the peer left out fields whose value is the protobuf default (valid proto2): the library's classes require them
+            import copy
+            wire_spec = copy.deepcopy(spec)
+            for kind, field in case["omit"]:
+                if kind in wire_spec and isinstance(wire_spec[kind], dict):
+                    wire_spec[kind].pop(field, None)
+            out.label("peer_omits_required_default_field")
+        fill_message(pm, wire_spec)
         data1 = pm.SerializeToString()
         try:
             attrs = conv.protobytes_to_message(data1)
@@ -649,6 +658,15 @@ def case_strategy(sub):
     def build(draw):
         spec = draw(message_strategy(0))
         case = {"sub": sub, "spec": spec}
+        if sub == "peer":
+            omit = []
+            for kind, info in KINDS.items():
+                if kind in spec:
+                    for row in info["fields"]:
+                        if len(row) > 3 and row[3] and row[2] in DEFAULTS and row[2] != "strlist" and draw(st.integers(0, 2)) == 0:
+                            omit.append([kind, row[0]])
+            if omit:
+                case["omit"] = omit
         if sub == "attrs":
             kinds = [k for k in spec if k in MEDIATYPE]
             meta = {"incoming": draw(st.booleans()), "id": draw(st.text(alphabet="0123456789ABCDEF", min_size=4, max_size=20)),
@@ -693,6 +711,7 @@ def _enum_each_kind():
     for i, s in enumerate(specs):
         yield {"sub": "attrs", "spec": s, "meta": {"incoming": True}, "edit": specs[(i + 1) % len(specs)], "edit_copy": bool(i % 2)}
         yield {"sub": "peer", "spec": s}
+    yield {"sub": "peer", "spec": specs[-1], "omit": [["protocol", "type"]]}
 
 
 def plan(tier):
